@@ -6,6 +6,9 @@ nondeterminism (clock, uuid4, random, Thread.start), which the harness owns.
 """
 from __future__ import annotations
 
+import asyncio
+import asyncio.base_events
+
 import http.client
 import importlib
 import pkgutil
@@ -263,22 +266,76 @@ def install(threads=True):
 
         def _loop_start(self):
             self._running = True
+            if not isinstance(self.loop, VirtualLoop):
+                if not self.loop.is_closed():
+                    self.loop.close()
+                self.loop = VirtualLoop()
 
-        def _loop_run_coro(self, coro):
+        def _loop_run_coro(self, coro, timeout=None, *args, **kwargs):  # noqa: ARG001
+            # what asyncio.run_coroutine_threadsafe(coro, loop).result(timeout) amounts to, on the virtual clock:
+            # the loop runs until the coroutine is done or `timeout` virtual seconds have passed; a coroutine that is
+            # not done then stays pending in the loop (and goes on when the loop runs the next time)
             if not self._running:
                 coro.close()
                 return None
-            return self.loop.run_until_complete(coro)
+            task = self.loop.create_task(coro)
+            self.loop.run_virtual(task, None if timeout is None else ENV.now + timeout)
+            if task.done():
+                return task.result()
+            raise TimeoutError
 
         def _loop_stop(self):
             self._running = False
             if not self.loop.is_closed():
+                if isinstance(self.loop, VirtualLoop):
+                    self.loop.run_virtual(None, None)      # let pending deliveries finish
                 self.loop.close()
 
         sma.AsyncioEventLoopThread.start = _loop_start
         sma.AsyncioEventLoopThread.run_coro = _loop_run_coro
         sma.AsyncioEventLoopThread.stop = _loop_stop
     _installed = True
+
+
+class VirtualLoop(asyncio.base_events.BaseEventLoop):
+    """An asyncio event loop without selector and without real time: ready callbacks run in order, and when nothing is
+    ready the virtual clock jumps to the next timer. Runs on the caller's thread."""
+
+    def time(self):
+        return ENV.now
+
+    def _process_events(self, event_list):  # noqa: ARG002
+        pass
+
+    def _write_to_self(self):
+        pass
+
+    def run_virtual(self, task, deadline):
+        import heapq
+        from asyncio import events
+        old = events._get_running_loop()
+        events._set_running_loop(self)
+        try:
+            while task is None or not task.done():
+                if self._ready:
+                    handle = self._ready.popleft()
+                    if not handle._cancelled:
+                        handle._run()
+                    continue
+                if self._scheduled:
+                    when = self._scheduled[0]._when
+                    if deadline is not None and when > deadline:
+                        ENV.now = max(ENV.now, deadline)
+                        return
+                    handle = heapq.heappop(self._scheduled)
+                    handle._scheduled = False
+                    ENV.now = max(ENV.now, when)
+                    if not handle._cancelled:
+                        self._ready.append(handle)
+                    continue
+                return      # nothing left to run
+        finally:
+            events._set_running_loop(old)
 
 
 def drain_operations(provider):
@@ -318,6 +375,7 @@ class Wire:
         self.clients = []        # every LoopSoapClient constructed
         self.intercept = None    # callable(client, path, data) -> None | ('respond', status, bytes) | ('raise', exc)
         self.connect_hook = None  # callable(client) -> None | raise
+        self.delay_hook = None    # callable(client, path) -> virtual seconds an async delivery takes (None/0: immediate)
 
     def register(self, server):
         self.servers[server.netloc] = server
@@ -523,6 +581,10 @@ def mk_loop_client_class(wire, owner):
             return message_data
 
         async def async_post_message_to(self, path, created_message, msg='', request_manipulator=None, validate=True):
+            if self._wire.delay_hook is not None:
+                delay = self._wire.delay_hook(self, path)
+                if delay:
+                    await asyncio.sleep(delay)       # a slow subscriber: virtual seconds on the manager's event loop
             if self.is_closed():
                 self._has_connection_error = False   # the real async client re-connects implicitly
             return self.post_message_to(path, created_message, msg, request_manipulator, validate)
